@@ -89,10 +89,17 @@ CHECKS.update({
         text="Part (a), ordered path search: resolve_file_path is executed from MIR with the file system as a symbolic oracle (is_absolute and "
              "is_file are free booleans; explicit list and environment list absent or 0-3 directories). Proved for all oracle answers: the "
              "result is the path itself if absolute, else the first existing dir/path of the explicit list if one is given (environment never "
-             "consulted), else of the environment list, else the path as given. Parts (b), (c) (include parsing/analysis lock-step, in-place "
-             "inclusion) are not claimed (need the AST boundary).",
+             "consulted), else of the environment list, else the path as given. Parts (b), (c): include PROJECTS (virtual files including "
+             "each other: sequences, nesting to depth 3, siblings with nested includes, the same file twice, stdgates.inc mixed with files, "
+             "faults inside included files, empty files, includes below the global scope) run through the real parse_source_and_includes / "
+             "parse_included_files / SourceFile::new and ALL of syntax_to_semantic (Include arm) from MIR with every file's readability, "
+             "existence and io::ErrorKind symbolic. For every oracle answer: no panic; graph and symbols equal those of the FLAT program "
+             "(readable files written at the include sites); the same diagnostic kinds; one list per include occurrence tagged with the "
+             "file's path in include order; each unreadable include reported once on its path node.",
         note="Trusted: Path/PathBuf abstract values with structural join, get_file_search_paths_from_env stubbed (env::split_paths not "
-             "analysed), MIR dump, z3. Violations of this part are not replayed natively (no public entry point with an oracle file system).",
+             "analysed), SourceFile::parse_check_lex as the parse boundary (lexer gating is C11's), fs::read_to_string / fs::canonicalize as "
+             "symbolic oracles (readable => exists), tree / map / string models, MIR dump, z3. Part (a) violations are not replayed natively "
+             "(no public entry point with an oracle file system). Bounds: 12 projects, include depth <= 3; include cycles outside.",
         technique=MC, design="6/C18"),
     "C19": dict(
         text="All of symbols.rs is executed from MIR with hashbrown::HashMap replaced by an abstract finite map; the history's opcodes and name "
